@@ -158,7 +158,7 @@ def r14_4(ctx):
             anon = bool(pops) and all(VAL[obj_root(q.E[x][2]['args'][0])][0] == 'sym' and
                                       prims.classify(VAL[obj_root(q.E[x][2]['args'][0])][2])[0] == 'temp_create_anon' for x in pops)
             C = [c for c in checker_calls(ctx, q) if c in after]
-            okE = outcomes(q, pops, 'Ok')
+            okE = [x for x in outcomes(q, pops, 'Ok') if x in after]   # same-site results of the other arm are not ours
             esc2 = q.must_follow(okE, C, oks)
             why = []
             if esc:
@@ -175,8 +175,8 @@ def r14_4(ctx):
                 errv = sites.err_value(ev)
                 isnf = q.edges(lambda b: b['k'] == 'branch' and VAL[b['val']][0] == 'sym' and VAL[b['val']][1] == 'cmp' and errv in values.subs(b['val'])
                                and any(VAL[s][0] == 'agg' and VAL[s][1] == 'std::io::ErrorKind' and int(VAL[s][2][1:]) == nf for s in values.subs(b['val'])))
-                t_edges = [b for b in isnf if q.E[b][2].get('eq') == 1]
-                f_edges = [b for b in isnf if q.E[b][2].get('eq') == 0]
+                t_edges = [b for b in isnf if q.E[b][2].get('eq') == 1 and b in after]
+                f_edges = [b for b in isnf if q.E[b][2].get('eq') == 0 and b in after]
                 if t_edges and (q.reach_fwd([q.E[b][1] for b in t_edges]) & set(oks)):
                     nf_ok = True
                 r = q.reach_fwd([q.E[b][1] for b in f_edges]) if f_edges else set()
